@@ -237,12 +237,12 @@ inductive Op where
   | block (now height : Int)                                  -- the epochs `BeginBlocker` of one block
   | send (src dst : Addr) (d : Denom) (amt : Nat)             -- any bank transfer (bonding, donations to module accounts)
   | updateParams (authorityOk : Bool) (p : ParamsIn)          -- `MsgUpdateParams`
-  | calc (p : Params) (period epp bonded : Nat)               -- the pure function, periods `period` and `period+1`
+  | sample (p : Params) (period epp bonded : Nat)               -- the pure function, periods `period` and `period+1`
 deriving Repr
 
 inductive Resp where
   | block (log : List Call)
-  | calc (p : Nat) (next : Option Nat)
+  | sample (p : Nat) (next : Option Nat)
   | none
 deriving Repr, DecidableEq
 
@@ -256,9 +256,9 @@ def step (env : Env) (s : State) : Op → R (State × Resp)
     ensure auth .unauthorized >>= fun _ =>
     ensure p.valid (.invalid "params") >>= fun _ =>
     .ok ({ s with infl := { s.infl with params := p.toParams } }, .none)
-  | .calc p period epp bonded =>
+  | .sample p period epp bonded =>
     provision p period epp bonded >>= fun v =>
-    .ok (s, .calc v (match provision p (period + 1) epp bonded with | .ok w => some w | .error _ => none))
+    .ok (s, .sample v (match provision p (period + 1) epp bonded with | .ok w => some w | .error _ => none))
 
 /-- block / transaction level execution: a rejected operation (for a block: a panicking
 `BeginBlocker`, which halts the chain) leaves the state unchanged -/
